@@ -25,7 +25,7 @@ def main():
         subprocess.run(["git", "-C", "/repo", "worktree", "add", "-f", "--detach", WT, "HEAD"], check=True, stdout=subprocess.DEVNULL, stderr=subprocess.DEVNULL)
     head = subprocess.check_output(["git", "-C", "/repo", "rev-parse", "HEAD"], text=True).strip()
     for pid in sys.argv[1:]:
-        for d in sorted(glob.glob("/tmp/seed/out/%s/m*/" % pid)):
+        for d in sorted(glob.glob(os.environ.get("SEED_OUT", "/tmp/seed/out") + "/%s/m*/" % pid)):
             rec = dict(pid=pid, dir=d, head=head)
             sh("git checkout -q --detach %s && git reset -q --hard %s && git clean -fdq -e target" % (head, head))
             rc, out = sh("git apply %spatch.diff || git apply --3way %spatch.diff" % (d, d))
